@@ -216,8 +216,22 @@ theorem runOp_out (m : Machine σ α β) (mode : SrcMode) (sub : Ctx) (raw : Lis
       gate ((m.onSubscribe m.init sub).2 ++ m.emits (m.onSubscribe m.init sub).1 (gate raw)) := by
   unfold runOp
   simp only [hs, if_true]
-  have := fold_out m mode raw (m.start sub) _ (start_tracks m sub) (start_upOpen m sub)
-  simpa using this
+  unfold RunSt.afterSubscribe
+  split
+  · -- a hot source unsubscribed right after Subscribe: nothing more can be delivered
+    rename_i hc
+    have hd : (m.start sub).downOpen = false := by
+      simp only [Bool.and_eq_true, Bool.not_eq_true'] at hc; exact hc.2
+    have ht := start_tracks m sub
+    have hterm : hasTerm (m.onSubscribe m.init sub).2 = true := by
+      have h2 := ht.open_; rw [hd] at h2
+      cases h : hasTerm (m.onSubscribe m.init sub).2
+      · rw [h] at h2; exact absurd h2 (by decide)
+      · rfl
+    rw [fold_closed_out _ _ _ _ (by simp), gate_append_of_term _ _ hterm]
+    exact ht.out
+  · have := fold_out m mode raw (m.start sub) _ (start_tracks m sub) (start_upOpen m sub)
+    simpa using this
 
 theorem runOp_out_nosub (m : Machine σ α β) (mode : SrcMode) (sub : Ctx) (raw : List (Notif α))
     (hs : m.subscribes = false) :
